@@ -119,7 +119,11 @@ func TestPropPipelines(t *testing.T) {
 			cls = append(cls, "pipeline_leak_attributed_to_"+id)
 		}
 		early := inf.stoppedEarly || sp.Has("first") || sp.Has("topSize") || sp.Has("present") || sp.Has("indexWhere") || sp.Has("top") || c.Consume != "force"
-		goroutineBacked := sp.HasSlow() || sp.Has("merge") || sp.Has("multiUse")
+		goroutineBacked := sp.HasSlow() || sp.Has("merge") || sp.Has("multiUse") || sp.Has("multiUseRejected") || sp.Has("multiUseFailingConsumer")
+		if sp.Has("multiUseRejected") || sp.Has("multiUseFailingConsumer") {
+			early = true // an error path of a goroutine-backed built-in
+			cls = append(cls, "pipeline_error_path_of_multiUse")
+		}
 		if goroutineBacked {
 			cls = append(cls, "pipeline_goroutine_backed_stage")
 		}
